@@ -299,11 +299,12 @@ func (p *parser) checkAlias(mAlias ast.Alias, typeSensitive bool, start int, cac
 						reported_errors = append(reported_errors, err)
 						cached_arg.Errors = append(cached_arg.Errors, err)
 					},
-					module:      p.module,
-					aliases:     p.aliases,
-					resolver:    p.resolver,
-					typechecker: p.typechecker,
-					Operators:   p.Operators,
+					module:            p.module,
+					aliases:           p.aliases,
+					resolver:          p.resolver,
+					typechecker:       p.typechecker,
+					Operators:         p.Operators,
+					predefinedModules: p.predefinedModules,
 				}
 
 				if paramType.IsReference {
